@@ -2,6 +2,7 @@
      <ws> <root hex> <files> <json|-> <init cfg> <changes|->   [<re table> <mask> <raw>]
    files    = hex names (relative), comma separated
    cfg      = <flags 0/1, position k = switch documented as type k, 0 = AllEnable>;<IgnoreFileOrDir>;<IgnoreFileOrDirError>
+              (the init cfg may carry a 4th component "L": the client also sends LocalRun = true)
    changes  = cfg|cfg|...                      (didChangeConfiguration notifications in order)
    json     = <ShowWarnFlag>;<IgnoreErrorTypes>;<OpenErrorTypes>;<IgnoreFileOrFloder>;<IgnoreFileErr>;<IgnoreFileErrTypes>;<entry 0/1>
               int lists "." separated ("_" empty); name lists "," separated hex ("_" empty list, "-" empty name);
@@ -18,7 +19,7 @@ let pints s = if s = "_" then [] else List.map (fun x -> n_of_int (int_of_string
 
 let parse_client s =
   match split ';' s with
-  | [fl; ih; ie] ->
+  | [fl; ih; ie] | [fl; ih; ie; "L"] ->
     { c_flags = List.init (String.length fl) (fun i -> fl.[i] = '1');
       c_ignore_handle = plist bytes_of_hex ih; c_ignore_err = plist bytes_of_hex ie }
   | _ -> failwith "bad client cfg"
@@ -75,22 +76,24 @@ let show_diags l =
   String.concat "," (List.map (fun d -> Printf.sprintf "%s:%d:%d:%d" (hex_of_bytes d.d_file) (int_of_n d.d_type)
                                   (int_of_n d.d_line) (int_of_n d.d_col)) l)
 
-(* C17_FIXED=1 selects the repaired variant of the model (regexp.Compile, bad pattern = literal only) *)
-let fixed = (try Sys.getenv "C17_FIXED" = "1" with Not_found -> false)
+(* which variant of the model: by default the one the translator derived from the code (Tie.fixed_regexp_now: the
+   repaired variant iff global_conf.go no longer calls regexp.MustCompile on user text); C17_FIXED=0/1 overrides *)
+let fixed = (try Sys.getenv "C17_FIXED" = "1" with Not_found -> fixed_regexp_now)
 
-type parsed = { root : n list; files : n list list; json : json_cfg option; c0 : client_cfg; cs : client_cfg list;
-                rest : string list }
+type parsed = { root : n list; files : n list list; json : json_cfg option; c0 : client_cfg; lr : bool;
+                cs : client_cfg list; rest : string list }
 let parse line =
   match split_ws line with
   | _ws :: root :: files :: json :: c0 :: cs :: rest ->
     { root = bytes_of_hex root; files = plist bytes_of_hex files; json = parse_json json; c0 = parse_client c0;
+      lr = (match split ';' c0 with [_; _; _; "L"] -> true | _ -> false);
       cs = (if cs = "-" then [] else List.map parse_client (split '|' cs)); rest }
   | _ -> failwith "bad case"
 
 (* the analysed set is computed with the repaired variant, which never faults and agrees with the code whenever
    the code does not fault, so that the spec column is meaningful for crash cases too *)
 let mask_of re_ok re_match p =
-  match session true re_ok p.json p.c0 p.cs with
+  match session true re_ok p.json p.c0 false p.cs with
   | Ok s -> String.concat "" (List.map (fun f -> if is_handled re_ok re_match s.s_g f then "1" else "0") p.files)
   | _ -> "-"
 
@@ -108,12 +111,12 @@ let () = register "c17.filter" (fun line ->
     if mask_of re_ok re_match p <> mask then "BAD-CASE mask" else
     let rawl = plist parse_diag raws in
     let raw = (fun _ -> rawl) in
-    let i = session_intent p.json p.c0 p.cs in
+    let i = session_intent p.json p.c0 p.cs in   (* LocalRun is not part of the intent *)
     let spec = show_diags (spec_shown re_ok re_match raw i p.root p.files) in
-    (match session fixed re_ok p.json p.c0 p.cs with
+    (match session fixed re_ok p.json p.c0 p.lr p.cs with
      | Ok s ->
        let g = s.s_g in
-       let model = (match run fixed re_ok re_match raw p.root p.files p.json p.c0 p.cs with
+       let model = (match run fixed re_ok re_match raw p.root p.files p.json p.c0 p.lr p.cs with
            | Ok l -> show_diags l | _ -> "MODEL-INCONSISTENT") in
        let cls = ref [] in
        let add c = if not (List.mem c !cls) then cls := !cls @ [c] in
@@ -123,7 +126,9 @@ let () = register "c17.filter" (fun line ->
            if cls_dead_flag re_ok re_match g i p.root d then add "dead_flag") rawl;
        if not (json_wf p.json) then add "dup_file_rule";
        model ^ "\t" ^ spec ^ "\t" ^ (if !cls = [] then "-" else String.concat "," !cls)
-     | Fault _ -> "CRASH regexp\t" ^ spec ^ "\tbad_regex"
+     | Fault Regexp -> "CRASH regexp\t" ^ spec ^ "\tbad_regex"
+     | Fault NilDeref -> "CRASH nil-map\t" ^ spec ^ "\tlocal_master_off"
+     | Fault _ -> "CRASH other\t" ^ spec ^ "\t-"
      | OutOfFuel -> "OUT-OF-FUEL\t" ^ spec ^ "\t-")
   | _ -> "BAD-CASE")
 
